@@ -60,6 +60,7 @@ def run(repo, rep, tier):
     r3 = rep.rule('C13.R3', 'class filters include subclasses')
     shadow_copy_rule(repo, rep)
     no_memoised_repository_reads(repo, rep)
+    adapters_forward_every_filter(repo, rep)
     mp = repo.cls(MAIN, 'MainProvider')
 
     def scope(f):
@@ -678,3 +679,52 @@ def no_memoised_repository_reads(repo, rep):
     d = probe.body[0].decorator_list[0]
     if (dotted(d.func) or '').split('.')[-1] not in CACHES:
         raise AnalysisError('C13.R6 recogniser broken')
+
+
+def adapters_forward_every_filter(repo, rep):
+    """C13.R7: the server-side adapters of the association operations
+    (_imeth_[Open]Associator*/Reference*) hand every parameter of the
+    provider method on.  A filter that the adapter drops (ResultRole,
+    Role, AssocClass, ResultClass) takes the provider's default None, so
+    that one variant ignores the filter while its siblings apply it: names
+    and full results, traditional and Open/Iter results disagree."""
+    MOCKF = 'pywbem_mock/_wbemconnection_mock.py'
+    r7 = rep.rule('C13.R7', 'association adapters pass every provider '
+                  'parameter on')
+    mock = repo.cls(MOCKF, 'FakedWBEMConnection')
+    mp = repo.cls(MAIN, 'MainProvider')
+    for n, f in sorted(mock.methods.items()):
+        if not n.startswith('_imeth_') or not (
+                'Associator' in n or 'Reference' in n):
+            continue
+        op = n[len('_imeth_'):]
+        pm = mp.find_method(op)
+        if pm is None:
+            raise AnalysisError('MainProvider.%s vanished' % op)
+        calls = [c for c in walk_no_nested(f.node) if isinstance(c, ast.Call)
+                 and (dotted(c.func) or '').endswith('.' + op)]
+        r7.sites += 1
+        r7.functions.add(f.fq)
+        if len(calls) != 1:
+            r7.ob(False, n)
+            rep.finding(r7, f.qualname, op, 'provider-call', MOCKF,
+                        f.node.lineno, '%d calls of the provider method'
+                        % len(calls))
+            continue
+        c = calls[0]
+        ps = [p for p in pm.params if p != 'self']
+        passed = set(ps[:len(c.args)]) | {k.arg for k in c.keywords if k.arg}
+        star = any(k.arg is None for k in c.keywords)
+        missing = [] if star else [p for p in ps if p not in passed]
+        r7.ob(not missing, n, {'passed': sorted(passed)})
+        if missing:
+            rep.finding(r7, f.qualname, norm(c, 60), 'filter-dropped', MOCKF,
+                        c.lineno,
+                        'the adapter does not pass %s to MainProvider.%s: '
+                        'the provider uses its default (None = no filter), '
+                        'so this operation ignores what the client sent '
+                        'while the sibling operations apply it'
+                        % (', '.join(missing), op))
+    if r7.sites < 8:
+        raise AnalysisError('C13.R7: only %d association adapters'
+                            % r7.sites)
